@@ -74,6 +74,7 @@ def gen(rng, n, tier):
                     shape = [a, m // a]
                     if (m // a) % 2 == 0 and rng.random() < 0.4: shape = [a, 2, m // a // 2]
                     break
+        spread = "F"
         wkind = rng.choice(["none", "none", "int", "float"])
         if wkind == "int": weights = [rng.randint(0, 5) for _ in range(m)]
         elif wkind == "float": weights = [Fr(rng.randint(0, 40), 8) for _ in range(m)]
@@ -91,7 +92,7 @@ def gen(rng, n, tier):
             data = [rv[r_] for r_ in picks]
             wkind = "float"
             weights = [(Fr(2 ** 60) * rng.randint(1, 4) if r_ == big else Fr(rng.randint(1, 5))) for r_ in picks]
-            shape = [m]
+            shape = [m]; spread = "T"
         wshape_ok = "T"
         if wkind != "none" and m > 1 and rng.random() < 0.04:
             weights = weights[:-1]; wshape_ok = "F"; malformed = "wshape"
@@ -102,7 +103,7 @@ def gen(rng, n, tier):
         layout = "F" if len(shape) > 1 and rng.random() < 0.4 else "C"      # memory order of the data array only
         named = "T" if rng.random() < 0.15 else "F"                         # the (name, data) form of a pandas groupby item
         yield [["bucket", "%s/%s/%s/w%s" % (style, form.split("-")[0], malformed, wkind)], ["data", data], ["shape", shape], ["incl", incl],
-               ["layout", layout], ["named", named],
+               ["layout", layout], ["named", named], ["spread", spread],
                ["wkind", wkind], ["weights", weights], ["wshape_ok", wshape_ok], ["bins", bins], ["form", form],
                ["dtype", dtype], ["keep_missed", keep], ["dropna", dropna]]
 
@@ -132,7 +133,10 @@ def impl(case):
     except Exception as e:
         return ["refused"]
     if d.get("named") == "T" and h.name != "nm": return ["ok-but-name-lost"]
-    return ["ok", h.frequencies.tolist(), h.errors2.tolist(), float(h.underflow), float(h.overflow), h.total,
+    total = h.total
+    if d.get("spread") == "T":      # the total of 2^60 beside 1 is not a float: read it as the exact sum of the contents shown
+        total = sum((Fr(float(x)) for x in h.frequencies.tolist()), Fr(0))
+    return ["ok", h.frequencies.tolist(), h.errors2.tolist(), float(h.underflow), float(h.overflow), total,
             C.snap_bins(h)[0], str(h.dtype)]
 
 def nontrivial(case, obs):
